@@ -650,11 +650,14 @@ def _rand_space(rng):
     if r < 0.25:
         return {"kind": "disc", "n": int(rng.integers(1, 7))}
     if r < 0.45:
-        k = int(rng.integers(1, 4))
-        return {"kind": "md", "nvec": [int(x) for x in rng.integers(1, 5, size=k)]}
+        # every fifth MultiDiscrete space is wide (8-12 components of unequal sizes)
+        k = int(rng.integers(1, 4)) if rng.random() < 0.8 else int(rng.integers(8, 13))
+        return {"kind": "md", "nvec": [int(x) for x in rng.integers(1, 5 if k < 8 else 7, size=k)]}
     if r < 0.6:
-        return {"kind": "mb", "n": int(rng.integers(1, 5))}
-    d = {"kind": "box", "dim": int(rng.integers(1, 5))}
+        return {"kind": "mb", "n": int(rng.integers(1, 5)) if rng.random() < 0.8 else int(rng.integers(8, 13))}
+    if r < 0.63:
+        return {"kind": "disc", "n": int(rng.integers(9, 20))}
+    d = {"kind": "box", "dim": int(rng.integers(1, 5)) if rng.random() < 0.85 else int(rng.integers(8, 13))}
     b = rng.random()
     if b < 0.5:
         d["low"], d["high"] = -1.0, 1.0
@@ -677,6 +680,11 @@ CORNER_SPACES = [
     {"kind": "md", "nvec": [3]},
     {"kind": "md", "nvec": [2, 3]},
     {"kind": "md", "nvec": [1, 4, 2]},
+    {"kind": "md", "nvec": [2, 3, 4, 2, 5, 3, 2, 4, 6]},
+    {"kind": "md", "nvec": [4] * 10},
+    {"kind": "mb", "n": 9},
+    {"kind": "disc", "n": 17},
+    {"kind": "box", "dim": 9, "low": -2.0, "high": 3.0},
     {"kind": "mb", "n": 1},
     {"kind": "mb", "n": 3},
 ]
@@ -726,6 +734,10 @@ def _case(entry, space, rng, **kw):
         "squash": bool(rng.random() < (0.45 if space["kind"] == "box" else 0.2)) if entry != "ippo" else False,
         "mask": ["none", "random", "all_but_one"][int(rng.integers(3))] if space["kind"] != "box" else "none",
         "mask_type": ["numpy", "tensor", "object"][int(rng.integers(3))],
+        # an environment that re-uses ONE mask buffer: the same object is handed over on consecutive calls with its contents
+        # rewritten in place between them (int8 / float / bool / int64 element types)
+        "mask_reuse": bool(rng.random() < 0.4),
+        "mask_dtype": ["int8", "bool", "float32", "int64"][int(rng.integers(4))],
         "wscale": float([0.3, 1.0, 3.0][int(rng.integers(3))]),
         "B": int(rng.integers(1, 9)),
         "T": int(rng.integers(2, 5)),
@@ -875,6 +887,37 @@ def _mask_as(case, m):
     return m.astype(np.int8)
 
 
+def _mask_buffer(case, m):
+    """The container an environment would keep re-using for its masks (None when the case does not re-use buffers)."""
+    import torch
+
+    if m is None or not case.get("mask_reuse"):
+        return None
+    dt = case.get("mask_dtype", "int8")
+    if case["mask_type"] == "tensor":
+        return torch.as_tensor(m.astype(dt))
+    if case["mask_type"] == "object":
+        o = np.empty(len(m), dtype=object)
+        for i, row in enumerate(m):
+            o[i] = row.astype(dt)
+        return o
+    return m.astype(dt)
+
+
+def _mask_refill(buf, m):
+    """Overwrite the buffer's contents in place with mask m; returns the same object."""
+    import torch
+
+    if isinstance(buf, torch.Tensor):
+        buf.copy_(torch.as_tensor(m.astype(np.float32)).to(buf.dtype))
+    elif buf.dtype == object:
+        for i, row in enumerate(m):
+            np.copyto(buf[i], row.astype(buf[i].dtype))
+    else:
+        np.copyto(buf, m.astype(buf.dtype))
+    return buf
+
+
 def _run_actor(case, rec):
     import torch
     from gymnasium import spaces
@@ -906,11 +949,18 @@ def _actor_battery(actor, case, space, gen, rng, forwards=3):
     mask = _mk_mask(case, space, B, rng)
     _STATE["ctx"] = "actor"
     stored = None
+    buf = _mask_buffer(case, mask)
     with torch.no_grad():
         for k in range(forwards):
-            a, lp, ent = actor(obs, _mask_as(case, mask))
-            if stored is None:
-                stored = a.clone()
+            if buf is not None:
+                if k:
+                    mask = _mk_mask(case, space, B, rng)
+                a, lp, ent = actor(obs, _mask_refill(buf, mask))
+                _STATE["rec"].hit("forwards_with_a_reused_mask_buffer")
+            else:
+                a, lp, ent = actor(obs, _mask_as(case, mask))
+            if stored is None or buf is not None:
+                stored = a.clone()  # (re-used buffers: the action drawn under the mask that is re-evaluated below)
         # later: parameters moved on, another (unrelated) sample is drawn, then the stored action is re-evaluated
         _perturb(actor, gen)
         actor(obs, _mask_as(case, mask))
@@ -1005,11 +1055,17 @@ def _ppo_battery(agent, case, rec, space, gen, rng):
     S, A, L, R, D, V = [], [], [], [], [], []
     _STATE["ctx"] = "PPO.get_action"
     last_obs = last_act = None
+    buf = None
     for t in range(T):
         o = (rng.standard_normal((E, OBS_DIM)) * 2).astype(np.float32)
         m = _mk_mask(case, space, E, rng)
         obs_in = o if vect else o[0]
         mask_in = None if m is None else (_mask_as(case, m) if vect else m[0].astype(np.int8))
+        if m is not None and case.get("mask_reuse"):
+            if buf is None:
+                buf = _mask_buffer(case, m) if vect else m[0].astype(case.get("mask_dtype", "int8"))
+            mask_in = _mask_refill(buf, m) if vect else _mask_refill(buf, m[0])
+            rec.hit("forwards_with_a_reused_mask_buffer")
         ret = agent.get_action(obs_in, action_mask=mask_in)
         _check_ppo_get_action(rec, agent, o, ret, training=True)
         a, lp, ent, v = ret
